@@ -149,3 +149,5 @@ def rest(ctx):
     ctx.import_rules("C10", r"^handshake|^waker")
     ctx.import_rules("C06", r"^spsc/thread-register-then-recheck")
     taken_waiter_is_woken(ctx, only=r"sync::(mpsc|spsc)::InnerQueue\.(to_wake|wait_co)$")
+    channel_bookkeeping_rules(ctx)
+    spsc_blocker_tag_rules(ctx)
